@@ -118,6 +118,20 @@ func c13LoopVars(n *c13Node) map[types.Object]bool {
 					}
 				}
 			}
+		case *ast.CallExpr:
+			// a callback iterator: the parameters of a function literal handed to a call
+			// (`forEachToken(tokens, func(i, token int) bool {...})`) are iteration variables
+			for _, a := range s.Args {
+				if lit, ok := ast.Unparen(a).(*ast.FuncLit); ok && lit.Type.Params != nil {
+					for _, fl := range lit.Type.Params.List {
+						for _, nm := range fl.Names {
+							if o := info.Defs[nm]; o != nil {
+								out[o] = true
+							}
+						}
+					}
+				}
+			}
 		case *ast.ForStmt:
 			if as, ok := s.Init.(*ast.AssignStmt); ok && as.Tok == token.DEFINE {
 				for _, l := range as.Lhs {
@@ -164,7 +178,7 @@ func c13Buffers(c *core.Ctx, g *c13Graph, sf *c13SpecFields) {
 				}
 			}
 			nSites++
-			cons := n.name + "|index into sized buffer " + strings.TrimPrefix(sf.name(v), n.pkg.Types.Name()+".")
+			cons := g.owner(n).name + "|index into sized buffer " + strings.TrimPrefix(sf.name(v), n.pkg.Types.Name()+".")
 			gr := groups[cons]
 			if gr == nil {
 				gr = &group{node: n, field: v}
@@ -272,7 +286,15 @@ func c13CheckWindowSizes(c *core.Ctx, g *c13Graph, sf *c13SpecFields, field *typ
 			}
 		}
 		if param < 0 {
-			return false, sprintf("the size of %s in %s is not a constructor parameter; cannot trace it", sf.name(field), k.name)
+			// the buffer is made where the window is installed (constructor inlined): the size
+			// expression itself is the source
+			nSources++
+			okSrc, detail := c13SizeSourceOK(c, g, sf, k, ms.size)
+			if !okSrc {
+				return false, detail
+			}
+			details = append(details, detail)
+			continue
 		}
 		// call sites of the constructor
 		for _, caller := range g.nodes {
@@ -716,6 +738,13 @@ func c13ShowsPositive(n *c13Node, cond ast.Expr, outcome bool, size *types.Var) 
 	cond = ast.Unparen(cond)
 	info := n.pkg.TypesInfo
 	switch e := cond.(type) {
+	case *ast.Ident:
+		// `admitted := calls < permitted; if admitted {` — a boolean local defined once
+		if def := c13SingleDef(n, e); def != nil {
+			if _, again := ast.Unparen(def).(*ast.Ident); !again {
+				return c13ShowsPositive(n, def, outcome, size)
+			}
+		}
 	case *ast.UnaryExpr:
 		if e.Op == token.NOT {
 			return c13ShowsPositive(n, e.X, !outcome, size)
